@@ -26,4 +26,3 @@ for l in open(os.path.join(V, "known_findings.jsonl")):
     e = json.loads(l)
     if e["status"] == "known":
         print("| %s | %s | %s |" % (e["property"], json.dumps(e["signature"]).replace("|", "/"), e["what"].replace("|", "/")[:260]))
-/root/.pyenv/libexec/pyenv-hooks: line 24: enable: cannot open shared object /root/.pyenv/libexec/pyenv-realpath.dylib: /root/.pyenv/libexec/pyenv-realpath.dylib: cannot open shared object file: No such file or directory
